@@ -6,6 +6,8 @@ Model/Rng.lean (where in the stream a call starts).  Streams are uninterpreted.
 -/
 import StarsimModel.Model.Slots
 import StarsimModel.Props.C04
+import StarsimModel.Lemmas.Grow
+import StarsimModel.Generated.GrowOps
 
 namespace StarsimModel.C03
 open StarsimModel.Slots StarsimModel.Rng
@@ -247,7 +249,43 @@ theorem C03_extension_invariance (w : World) (pop extras : List Nat) (st : EpiSt
       unfold epiStep
       simp only [getsInfected_extension w n _ pop extras _ hex hdraw]
 
+/-! ### Newborns: the slot is in place before any state default is drawn (`People.grow`, Model/Grow.lean) -/
+
+open StarsimModel.Grow in
+/-- The statements of `People.grow` (REGENERATED from the source on every run) write the requested slots before they
+    grow the states, once each. -/
+theorem C03_grow_slots_before_defaults : slotsBeforeDefaults Gen.growOps = true := by decide
+
+open StarsimModel.Grow in
+/-- **A newborn's random state default depends only on its slot.** For every population (any number of agents created
+    before, any slots), every list of requested slots and every stream, after `People.grow` as the source has it the new
+    agents hold exactly the requested slots and a state whose default is a draw gives each new agent the stream value of ITS
+    slot — whatever its uid is, i.e. however many agents were created before it. -/
+theorem C03_newborn_default_by_slot (stream : Nat → Nat) (p0 : P) (newSlots : List Nat) :
+    (grow Gen.growOps stream p0 newSlots).slots = p0.slots ++ newSlots ∧
+    (grow Gen.growOps stream p0 newSlots).vals = p0.vals ++ newSlots.map stream :=
+  grow_by_slot Gen.growOps C03_grow_slots_before_defaults stream p0 newSlots
+
+open StarsimModel.Grow in
+/-- two worlds that differ in how many agents exist: the same requested slots give the same defaults -/
+theorem C03_newborn_default_world_independent (stream : Nat → Nat) (p0 p0' : P) (newSlots : List Nat) :
+    (grow Gen.growOps stream p0 newSlots).vals.drop p0.vals.length =
+    (grow Gen.growOps stream p0' newSlots).vals.drop p0'.vals.length := by
+  rw [(C03_newborn_default_by_slot stream p0 newSlots).2, (C03_newborn_default_by_slot stream p0' newSlots).2]
+  simp
+
+open StarsimModel.Grow in
+/-- the order matters: drawing the defaults before the requested slots are written keys them by uid -/
+theorem C03_grow_order_counterexample :
+    slotsBeforeDefaults [.uidGrow, .slotGrowDefault, .parentGrow, .statesGrow, .slotWrite, .auids] = false ∧
+    (grow [.uidGrow, .slotGrowDefault, .parentGrow, .statesGrow, .slotWrite, .auids] (fun s => 100 + s) ⟨[0, 1, 2], [7, 7, 7]⟩ [9]).vals = [7, 7, 7, 103] ∧
+    (grow [.uidGrow, .slotGrowDefault, .parentGrow, .statesGrow, .slotWrite, .auids] (fun s => 100 + s) ⟨[0, 1], [7, 7]⟩ [9]).vals = [7, 7, 102] := by
+  decide
+
 /-! ### Non-vacuity -/
+
+open StarsimModel.Grow in
+example : (grow Gen.growOps (fun s => 100 + s) ⟨[0, 1, 2], [7, 7, 7]⟩ [9, 4]).vals = [7, 7, 7, 109, 104] := by decide
 
 example : rvsCode (fun i => 10 * i) [3, 0, 3, 7] = [some 30, some 0, some 30, some 70] := by decide
 example : reqSize [3, 0, 3, 7] = 8 ∧ reqSize [] = 0 := by decide
